@@ -1,4 +1,6 @@
 import XalanModel.C14.EngineProofs
+import XalanModel.C14.StackProofs
+import XalanModel.C14.Stylesheet
 /-!
 # C14 — result elements/attributes get the requested expanded names; prefixes resolve
 
@@ -141,17 +143,6 @@ theorem no_duplicate_expanded_attr_counterexample :
     (s.pendAtts.map (·.name)) = [⟨"xmlns", "p"⟩, ⟨"xmlns", "q"⟩, ⟨"p", "x"⟩, ⟨"q", "x"⟩] ∧
       s.resultNs "p" = some "urn:U" ∧ s.resultNs "q" = some "urn:U" := by decide
 
-/-- the invented prefix is unbound — unless the loop ran out of its `fuel` candidates with every one bound.
-Missing for the full statement: the pigeonhole argument that `declCount + 1` distinct candidates cannot all be
-bound by `declCount` declarations (the C++ loop has no bound at all). -/
-theorem unique_prefix_is_fresh_partial (s : St) :
-    s.resultNs (s.unique).1 = none ∨
-      ∀ j : Nat, s.uniq ≤ j → j < s.uniq + s.declCount → (s.resultNs ("ns" ++ toString j)).isSome = true := by
-  unfold St.unique St.resultNs
-  exact uniqueLoop_fresh _ _ _
-
-example : ({} : St).resultNs (({} : St).unique).1 = none := by decide
-
 /-- **xsl:attribute with a namespace** (`ElemAttribute.cpp:167-288`): whatever the state of the engine, the
 attribute that ends up in the pending start tag has the requested local name, a non-empty prefix, and the
 engine's namespace stack binds that prefix to the requested URI.
@@ -161,6 +152,7 @@ declaration (the code does not check — see `names_resolve_attr_ns_counterexamp
 xmlns namespace URI. -/
 theorem names_resolve_attr_ns_partial (s : St) (name : QN) (N value : String) (ssNs : Option String)
     (hN : N ≠ "") (hN' : N ≠ xmlnsURI) (hctx : s.ns.createNew ≠ []) (hxml : name.pfx ≠ "xml")
+    (hlate : (s.v.lateAttrCheck && !s.isElementPending) = false)
     (hreuse : ∀ p, s.resultPrefix N = some p → s.resultNs p = some N) :
     ∃ q : QN, ⟨q, value⟩ ∈ (s.elemAttribute name (some N) ssNs value).1.pendAtts ∧ q.loc = name.loc ∧ q.pfx ≠ "" ∧
       (s.elemAttribute name (some N) ssNs value).1.resultNs q.pfx = some N := by
@@ -176,7 +168,7 @@ theorem names_resolve_attr_ns_partial (s : St) (name : QN) (N value : String) (s
     · rw [hpl]; exact mem_addAttribute _ _ _
     · rw [hpl]; exact St.resultNs_after_decl t p N hc h1 h2
   unfold St.elemAttribute
-  simp only [hN, if_false]
+  simp only [hN, hlate, if_false, Bool.false_eq_true]
   cases hr : s.attrReuse name N with
   | some p =>
     -- reuse of an existing prefix
@@ -195,15 +187,8 @@ theorem names_resolve_attr_ns_partial (s : St) (name : QN) (N value : String) (s
     have hb := hreuse p hp'.1
     have hnx : p ≠ "xmlns" := by
       intro e; subst e
-      unfold St.resultNs RNS.nsForPrefix at hb
-      split at hb
-      · cases hb
-      · match hf : s.ns.frames with
-        | [] => simp [hf] at *
-        | f :: fs =>
-          rw [hf] at hb
-          simp [List.findSome?, Frame.nsForPrefix] at hb
-          exact hN' hb.symm
+      simp [St.resultNs, RNS.nsForPrefix] at hb
+      exact hN' hb.symm
     have hpl := St.addResultAttribute_plain s ⟨p, name.loc⟩ value false hnx
       (by intro e; injection e with e1 _; exact hp'.2 e1)
     refine ⟨⟨p, name.loc⟩, ?_, rfl, hp'.2, ?_⟩
@@ -251,7 +236,8 @@ unbound or invented: see `no_undeclared_prefix_counterexample`. -/
 theorem no_undeclared_prefix_partial (s : St) (name : QN) (U value : String)
     (hpend : s.isElementPending = true) (hp0 : name.pfx ≠ "") (hp1 : name.pfx ≠ "xmlns")
     (hxml : (name.str.toList.take 3 == "xml".toList) = false) (hp2 : name.pfx ≠ "xml")
-    (hU : U ≠ "") (hctx : s.ns.createNew ≠ []) (hfree : s.resultPrefix U = none) :
+    (hU : U ≠ "") (hctx : s.ns.createNew ≠ []) (hv : s.v.ownPrefixDecl = false)
+    (hfree : s.resultPrefix U = none) :
     ∃ q : QN, ⟨q, value⟩ ∈ (s.elemAttribute name none (some U) value).1.pendAtts ∧ q.loc = name.loc ∧ q.pfx ≠ "" ∧
       (s.elemAttribute name none (some U) value).1.resultNs q.pfx = some U := by
   have key : ∀ (t : St) (p : String), t.ns.createNew ≠ [] → p ≠ "" → p ≠ "xml" → p ≠ "xmlns" →
@@ -269,20 +255,22 @@ theorem no_undeclared_prefix_partial (s : St) (name : QN) (U value : String)
   unfold St.elemAttribute
   have hcond : (s.isElementPending && decide (name ≠ ⟨"", "xmlns"⟩)) = true := by simp [hpend, hname]
   simp only [hcond, hxml, hp0, hU, if_true, if_false, Bool.false_eq_true]
+  have hnd : ∀ p, s.attrNeedDecl p U = true := by
+    intro p; simp [St.attrNeedDecl, hv, hfree]
+  have hnd' : ∀ p, s.unique.2.attrNeedDecl p U = true := by
+    intro p
+    have : s.unique.2.attrNeedDecl p U = s.attrNeedDecl p U := rfl
+    rw [this]; exact hnd p
   by_cases hc : s.attrNoNsConflict name U = true
   · -- conflict: invented prefix
-    rw [if_pos hc]
-    have hfree' : s.unique.2.resultPrefix U = none := by
-      show s.unique.2.ns.prefixForNs U = none
-      rw [St.unique_ns]; exact hfree
-    rw [hfree']
+    rw [if_pos hc, if_pos (hnd' _)]
     dsimp only
     obtain ⟨j, hj⟩ := St.unique_prefix s
     have hne := ns_prefix_ne (toString j)
     rw [← hj] at hne
     have := key s.unique.2 s.unique.1 (by rw [St.unique_ns]; exact hctx) hne.2.2 hne.1 hne.2.1
     exact ⟨⟨s.unique.1, name.loc⟩, this.1, rfl, hne.2.2, this.2⟩
-  · rw [if_neg hc, hfree]
+  · rw [if_neg hc, if_pos (hnd _)]
     dsimp only
     have := key s name.pfx hctx hp0 hp2 hp1
     exact ⟨name, this.1, rfl, hp0, this.2⟩
@@ -312,5 +300,213 @@ theorem attr_after_child_leaks_counterexample :
                      .elemAttribute ⟨"", "a"⟩ (some "urn:N") none "v",
                      .lreStart ⟨"", "f"⟩ [] none, .flush]
     s.out.head? = some (Ev.start ⟨"", "f"⟩ [⟨⟨"xmlns", "ns0"⟩, "urn:N"⟩, ⟨⟨"ns0", "a"⟩, "v"⟩]) := by decide
+
+
+/-! ## the namespace stack -/
+
+inductive StackOp where
+  | push | pop | add (p u : String)
+
+def stackStep (r : RNS) : StackOp → RNS
+  | .push => r.pushContext
+  | .pop => r.popContext
+  | .add p u => r.addDeclaration p u
+
+def eagerStep (fs : List Frame) : StackOp → List Frame
+  | .push => [] :: fs
+  | .pop => fs.tail
+  | .add p u => Eager.add fs p u
+
+/-- **the lazily created `XalanNamespacesStack` refines a plain stack of frames**: after any sequence of
+`pushContext` / `popContext` / `addDeclaration` from the empty stack, reading the created entries against the
+`m_createNewContextStack` flags gives exactly the stack of frames obtained by pushing an empty frame per context,
+and both look-ups (`getNamespaceForPrefix`, `getPrefixForNamespace`) answer as that plain stack does. -/
+theorem rns_refines_frames (ops : List StackOp) (x : String) :
+    let r := ops.foldl stackStep {}
+    r.abs = ops.foldl eagerStep [] ∧ r.nsForPrefix x = Eager.nsForPrefix r.abs x ∧
+      r.prefixForNs x = Eager.prefixForNs r.abs x := by
+  have gen : ∀ (ops : List StackOp) (r : RNS), r.Inv →
+      (ops.foldl stackStep r).Inv ∧ (ops.foldl stackStep r).abs = ops.foldl eagerStep r.abs := by
+    intro ops
+    induction ops with
+    | nil => intro r h; exact ⟨h, rfl⟩
+    | cons op ops ih =>
+      intro r h
+      simp only [List.foldl_cons]
+      cases op with
+      | push =>
+        have := ih r.pushContext (RNS.inv_push r h)
+        rw [RNS.abs_push] at this
+        exact this
+      | pop =>
+        have h2 := RNS.abs_pop r h
+        have := ih r.popContext h2.2
+        rw [h2.1] at this
+        exact this
+      | add p u =>
+        have h2 := RNS.abs_add r p u h
+        have := ih (r.addDeclaration p u) h2.2
+        rw [h2.1] at this
+        exact this
+  intro r
+  have h0 : ({} : RNS).Inv := by simp [RNS.Inv, countFalse]
+  have hg := gen ops {} h0
+  have hl := RNS.lookups_refine r hg.1 x
+  exact ⟨hg.2, hl.1, hl.2⟩
+
+example : (([.push, .push, .add "p" "urn:U", .pop, .push, .add "q" "urn:Q"] : List StackOp).foldl stackStep {}).abs
+    = [[⟨"q", "urn:Q"⟩], []] := by decide
+
+/-! ## after the proposed repairs (`Variant` flags `true`) and the remaining planned theorems -/
+
+/-- **the invented prefix is always unbound** (`getUniqueNamespaceValue`): pigeonhole over the declared prefixes —
+`declCount + 1` distinct candidates `ns<k>` cannot all be bound by `declCount` declarations, so the model's fuel is
+enough and the C++ `do … while` terminates with a fresh prefix. -/
+theorem unique_prefix_is_fresh (s : St) : s.resultNs (s.unique).1 = none := St.unique_unbound s
+
+example : ({} : St).resultNs (({} : St).unique).1 = none := by decide
+
+/-- with `C14-attr-declare-own-prefix.diff` the no-namespace branch needs no side condition any more: whatever is
+bound in the result, the attribute's final prefix is bound to the stylesheet namespace `U`. -/
+theorem no_undeclared_prefix_fixed (s : St) (name : QN) (U value : String)
+    (hpend : s.isElementPending = true) (hp0 : name.pfx ≠ "") (hp1 : name.pfx ≠ "xmlns")
+    (hxml : (name.str.toList.take 3 == "xml".toList) = false) (hp2 : name.pfx ≠ "xml")
+    (hU : U ≠ "") (hctx : s.ns.createNew ≠ []) (hv : s.v.ownPrefixDecl = true) :
+    ∃ q : QN, ⟨q, value⟩ ∈ (s.elemAttribute name none (some U) value).1.pendAtts ∧ q.loc = name.loc ∧ q.pfx ≠ "" ∧
+      (s.elemAttribute name none (some U) value).1.resultNs q.pfx = some U := by
+  have key : ∀ (t : St) (p : String), t.ns.createNew ≠ [] → p ≠ "" → p ≠ "xml" → p ≠ "xmlns" →
+      let t' := (t.addResultAttribute ⟨"xmlns", p⟩ U).addResultAttribute ⟨p, name.loc⟩ value
+      (⟨⟨p, name.loc⟩, value⟩ : Att) ∈ t'.pendAtts ∧ t'.resultNs p = some U := by
+    intro t p hc h0 h1 h2 t'
+    have hpl : t' = (t.addResultAttribute ⟨"xmlns", p⟩ U).addAtt ⟨p, name.loc⟩ value := by
+      apply St.addResultAttribute_plain
+      · exact h2
+      · intro e; injection e with e1 _; exact h0 e1
+    constructor
+    · rw [hpl]; exact mem_addAttribute _ _ _
+    · rw [hpl]; exact St.resultNs_after_decl t p U hc h1 h2
+  have key2 : ∀ (t : St) (p : String), p ≠ "" → p ≠ "xmlns" → t.v.ownPrefixDecl = true →
+      t.attrNeedDecl p U = false →
+      (⟨⟨p, name.loc⟩, value⟩ : Att) ∈ (t.addResultAttribute ⟨p, name.loc⟩ value).pendAtts ∧
+        (t.addResultAttribute ⟨p, name.loc⟩ value).resultNs p = some U := by
+    intro t p h0 h2 htv hnd
+    have hpl := St.addResultAttribute_plain t ⟨p, name.loc⟩ value false h2
+      (by intro e; injection e with e1 _; exact h0 e1)
+    have hb : t.resultNs p = some U := by
+      simp [St.attrNeedDecl, htv] at hnd
+      exact hnd
+    rw [hpl]
+    exact ⟨mem_addAttribute _ _ _, hb⟩
+  have hname : name ≠ ⟨"", "xmlns"⟩ := by intro e; apply hp0; rw [e]
+  unfold St.elemAttribute
+  have hcond : (s.isElementPending && decide (name ≠ ⟨"", "xmlns"⟩)) = true := by simp [hpend, hname]
+  simp only [hcond, hxml, hp0, hU, if_true, if_false, Bool.false_eq_true]
+  obtain ⟨j, hj⟩ := St.unique_prefix s
+  have hne := ns_prefix_ne (toString j)
+  rw [← hj] at hne
+  by_cases hc : s.attrNoNsConflict name U = true
+  · rw [if_pos hc]
+    by_cases hnd : s.unique.2.attrNeedDecl s.unique.1 U = true
+    · rw [if_pos hnd]
+      have := key s.unique.2 s.unique.1 (by rw [St.unique_ns]; exact hctx) hne.2.2 hne.1 hne.2.1
+      exact ⟨⟨s.unique.1, name.loc⟩, this.1, rfl, hne.2.2, this.2⟩
+    · rw [if_neg hnd]
+      have := key2 s.unique.2 s.unique.1 hne.2.2 hne.2.1 hv (by simpa using hnd)
+      exact ⟨⟨s.unique.1, name.loc⟩, this.1, rfl, hne.2.2, this.2⟩
+  · rw [if_neg hc]
+    by_cases hnd : s.attrNeedDecl name.pfx U = true
+    · rw [if_pos hnd]
+      have := key s name.pfx hctx hp0 hp2 hp1
+      exact ⟨name, this.1, rfl, hp0, this.2⟩
+    · rw [if_neg hnd]
+      have := key2 s name.pfx hp0 hp1 hv (by simpa using hnd)
+      exact ⟨name, this.1, rfl, hp0, this.2⟩
+
+/-- the repaired tree on the witness of `no_undeclared_prefix_counterexample`: `xmlns:ns0` is now declared -/
+example :
+    let s := run { v := { ownPrefixDecl := true } } [.lreStart ⟨"", "r"⟩ [⟨"p", "urn:U"⟩, ⟨"q", "urn:U"⟩] none,
+                     .elemElementStart ⟨"p", "e"⟩ (some "urn:Uprime") (some "urn:U") none "",
+                     .elemAttribute ⟨"p", "x"⟩ none (some "urn:U") "3"]
+    s.pendAtts = [⟨⟨"xmlns", "p"⟩, "urn:Uprime"⟩, ⟨⟨"xmlns", "ns0"⟩, "urn:U"⟩, ⟨⟨"ns0", "x"⟩, "3"⟩] := by decide
+
+/-- `getPrefixForNamespace` after `C14-prefix-for-namespace-skips-shadowed.diff` only returns prefixes that still
+resolve to the namespace -/
+theorem prefix_lookup_sound_fixed (s : St) (hv : s.v.shadowCheck = true) (N p : String)
+    (h : s.resultPrefix N = some p) : s.resultNs p = some N := by
+  simp only [St.resultPrefix, hv, if_true] at h
+  unfold RNS.prefixForNsChecked at h
+  split at h
+  · cases h
+  · obtain ⟨f, _, hf⟩ := List.exists_of_findSome?_eq_some h
+    cases hfind : f.find? (fun n => n.uri = N && s.ns.nsForPrefix n.pfx == some N) with
+    | none => simp [hfind] at hf
+    | some n =>
+      have hp := List.find?_some hfind
+      simp [hfind] at hf
+      simp at hp
+      subst hf
+      exact hp.2
+
+/-- with that repair `names_resolve_attr_ns_partial` holds without the shadowing hypothesis -/
+theorem names_resolve_attr_ns_fixed (s : St) (name : QN) (N value : String) (ssNs : Option String)
+    (hN : N ≠ "") (hN' : N ≠ xmlnsURI) (hctx : s.ns.createNew ≠ []) (hxml : name.pfx ≠ "xml")
+    (hlate : (s.v.lateAttrCheck && !s.isElementPending) = false) (hv : s.v.shadowCheck = true) :
+    ∃ q : QN, ⟨q, value⟩ ∈ (s.elemAttribute name (some N) ssNs value).1.pendAtts ∧ q.loc = name.loc ∧ q.pfx ≠ "" ∧
+      (s.elemAttribute name (some N) ssNs value).1.resultNs q.pfx = some N :=
+  names_resolve_attr_ns_partial s name N value ssNs hN hN' hctx hxml hlate
+    (fun p h => prefix_lookup_sound_fixed s hv N p h)
+
+example :
+    let s := run { v := { shadowCheck := true } } [.lreStart ⟨"", "r"⟩ [⟨"p", "urn:N"⟩] none,
+                     .elemElementStart ⟨"p", "e"⟩ (some "urn:M") (some "urn:N") none "",
+                     .elemAttribute ⟨"", "x"⟩ (some "urn:N") none "3"]
+    s.pendAtts = [⟨⟨"xmlns", "p"⟩, "urn:M"⟩, ⟨⟨"xmlns", "ns0"⟩, "urn:N"⟩, ⟨⟨"ns0", "x"⟩, "3"⟩] := by decide
+
+/-- with `C14-late-attribute-needs-pending-element.diff` an xsl:attribute (with or without namespace) that finds no
+pending start tag leaves the engine untouched — nothing can leak to the next element. -/
+theorem late_attribute_ignored_fixed (s : St) (name : QN) (nsAvt ssNs : Option String) (value : String)
+    (hv : s.v.lateAttrCheck = true) (hp : s.isElementPending = false) :
+    (s.elemAttribute name nsAvt ssNs value).1 = s := by
+  unfold St.elemAttribute
+  cases nsAvt <;> simp [hv, hp]
+
+/-- with `C14-element-empty-namespace.diff`, `xsl:element name="p:l" namespace=""` opens an element named `l` -/
+theorem element_empty_namespace_fixed (s : St) (name : QN) (hNs hDefault : Option String) (pd : String)
+    (hv : s.v.emptyNsStrips = true) :
+    (s.elemElementStart name (some "") hNs hDefault pd).2.1 = some ⟨"", name.loc⟩ ∧
+      (s.elemElementStart name (some "") hNs hDefault pd).1.pendName = some ⟨"", name.loc⟩ := by
+  unfold St.elemElementStart
+  simp only [hv, Bool.true_and, decide_true, if_true, Option.getD_some, ne_eq, not_true_eq_false,
+    decide_false, if_false, Bool.false_eq_true, Option.isNone_some, Bool.false_and, Bool.not_false,
+    Bool.not_true]
+  constructor
+  · trivial
+  · split <;> simp [St.pendName_addResultAttribute, St.startElement]
+
+/-- `NamespacesHandler::processExcludeResultPrefixes(prefix, checker)` (compile time): every namespace declaration
+a literal result element keeps for output is the element's own prefix, a prefix used by one of its attributes, or has
+a URI that is not excluded — i.e. an excluded namespace is emitted only where it is needed. -/
+theorem excluded_not_emitted (h : Handler) (elemPrefix : String) (active : List String) :
+    ∀ n ∈ (h.processExcluded elemPrefix active).decls,
+      n.pfx = elemPrefix ∨ n.pfx ∈ active ∨ h.isExcludedURI n.uri = false := by
+  intro n hn
+  unfold Handler.processExcluded at hn
+  split at hn
+  · rename_i he
+    right; right
+    simp only [List.isEmpty_iff] at he
+    simp [Handler.isExcludedURI, he]
+  · simp only [List.mem_filter] at hn
+    have := hn.2
+    by_cases h1 : n.pfx = elemPrefix
+    · exact Or.inl h1
+    · by_cases h2 : n.pfx ∈ active
+      · exact Or.inr (Or.inl h2)
+      · right; right
+        simp [h1, h2] at this
+        exact this
+
+example : (({ excluded := [⟨"p", "urn:a"⟩], decls := [⟨"p", "urn:a"⟩, ⟨"q", "urn:a"⟩, ⟨"r", "urn:b"⟩] } : Handler).processExcluded
+    "q" []).decls = [⟨"q", "urn:a"⟩, ⟨"r", "urn:b"⟩] := by decide
 
 end XalanModel.Props.C14
